@@ -246,6 +246,12 @@ func hexNib(c byte) byte {
 func ParseSuite(name string) (OCRASuite, bool) {
 	var s OCRASuite
 	s.Text = name
+	// the naming scheme is ASCII: Unicode case mapping (U+017F long s -> S ...) is no part of "case-insensitive"
+	for i := 0; i < len(name); i++ {
+		if name[i] >= 0x80 {
+			return s, false
+		}
+	}
 	parts := strings.Split(name, ":")
 	if len(parts) != 3 {
 		return s, false
